@@ -6,6 +6,8 @@ import sys, os, ast
 sys.path.insert(0, os.path.dirname(os.path.abspath(__file__)))
 from common import *
 
+OUTPUTS = ['GitRefsFacts.v']
+
 
 def parse(rel):
     p = os.path.join(REPO, rel)
